@@ -155,10 +155,39 @@ fn core_body(senders: usize, per: usize, closer: Closer) -> vsched::Body {
 }
 
 fn live_body(senders: usize, per: usize, closer: Closer, self_send: bool, wrong_type: bool) -> vsched::Body {
+    live_body_x(senders, per, closer, self_send, wrong_type, false, false)
+}
+
+/// `local`: A is a thread-local actor; `sup_events`: while the senders run, supervision events keep arriving
+/// at A (it monitors a process group that two bystanders join and leave; its handler logs them and goes on)
+fn live_body_x(senders: usize, per: usize, closer: Closer, self_send: bool, wrong_type: bool, local: bool, sup_events: bool) -> vsched::Body {
     Arc::new(move || {
         Box::pin(async move {
             let log = Log::default();
-            let (a, h) = Actor::spawn(None, Probe, args("A", Prog::default(), &log)).await.expect("A");
+            let spawner = ractor::thread_local::ThreadLocalActorSpawner::verif_new_local();
+            let (a, h) = if local {
+                <Probe as ractor::thread_local::ThreadLocalActor>::spawn(None, args("A", Prog::default(), &log), spawner.clone()).await.expect("A (thread-local)")
+            } else {
+                Actor::spawn(None, Probe, args("A", Prog::default(), &log)).await.expect("A")
+            };
+            let mut stim = None;
+            let mut bystanders = Vec::new();
+            if sup_events {
+                let (x, xh) = Actor::spawn(None, Probe, args("X", Prog::default(), &log)).await.expect("X");
+                let (y, yh) = Actor::spawn(None, Probe, args("Y", Prog::default(), &log)).await.expect("Y");
+                ractor::pg::monitor("c02".to_string(), a.get_cell());
+                let (x2, y2) = (x.clone(), y.clone());
+                stim = Some(vsched::spawn("stimulus", async move {
+                    ractor::pg::join("c02".to_string(), vec![x2.get_cell()]);
+                    vsched::yield_now().await;
+                    ractor::pg::join("c02".to_string(), vec![y2.get_cell()]);
+                    vsched::yield_now().await;
+                    ractor::pg::leave("c02".to_string(), vec![x2.get_cell()]);
+                    vsched::yield_now().await;
+                    ractor::pg::leave("c02".to_string(), vec![y2.get_cell()]);
+                }));
+                bystanders = vec![(x, xh), (y, yh)];
+            }
             let mut hs = Vec::new();
             for s in 0..senders {
                 let a = a.clone();
@@ -224,7 +253,14 @@ fn live_body(senders: usize, per: usize, closer: Closer, self_send: bool, wrong_
                 vsched::quiesce();
                 a.stop(None);
             }
+            if let Some(st) = stim {
+                let _ = st.await;
+            }
             let joined = h.await.is_ok();
+            for (b, bh) in bystanders {
+                b.stop(None);
+                let _ = bh.await;
+            }
             let evs = log.of("A");
             let handled: Vec<u32> = evs
                 .iter()
@@ -332,6 +368,16 @@ pub fn plan(tier: &str) -> Plan {
     if thorough {
         units.push(Unit::explore_split(Job::new("live/3x1/Drain", live_cfg.clone(), Some(3), live_body(3, 1, Closer::Drain, false, false)), 8));
     }
+    // supervision events keep arriving while messages flow (Send and thread-local actors): an accepted message
+    // is not lost to an event that overtakes it
+    let ev_cfg = ExecCfg::default();
+    for (local, closer) in [(false, Closer::None), (true, Closer::None), (true, Closer::Drain), (false, Closer::Drain)] {
+        units.push(Unit::explore_split(
+            Job::new(format!("live/{}/2x2+supervision-events/{closer:?}", if local { "thread-local" } else { "send" }), ev_cfg.clone(), Some(lb + 1), live_body_x(2, 2, closer, false, false, local, true)),
+            4,
+        ));
+    }
+    units.push(Unit::explore_split(Job::new("live/thread-local/2x2/Stop", live_cfg.clone(), Some(lb), live_body_x(2, 2, Closer::Stop, false, false, true, false)), 4));
     // task granularity: the same with no preemption inside the send path
     let t_cfg = ExecCfg::default();
     units.push(Unit::explore(Job::new("task/2x2+selfsend/Stop", t_cfg.clone(), Some(lb + 1), live_body(2, 2, Closer::Stop, true, true))));
